@@ -109,6 +109,18 @@ fn answer_inner(req: &str) -> String {
                 },
             }
         }
+        "SPEC" if parts.len() >= 4 && parts[1] == "int" => {
+            let vals: Option<Vec<Val>> = parts[3..].iter().map(|s| read_val(s)).collect();
+            match vals {
+                None => "bad-val".into(),
+                Some(v) => match eval_op(parts[2], &v) {
+                    // the specification does not speak about messages
+                    Some(Ok(v)) => format!("ok {}", show_val(&v)),
+                    Some(Err(e)) => format!("err {}@-:0-0;", code_of(&e.to_string())),
+                    None => "bad-op".into(),
+                },
+            }
+        }
         "FMT" => match read_val(parts[1]) {
             Some(v) => format!("ok T{}", hex(&format!("{}", v))),
             None => "bad-val".into(),
@@ -153,6 +165,7 @@ const OPS2_NUM: &[&str] = &[
     "pow", "mul", "div", "divint", "mod", "add", "sub", "eq", "ne", "lt", "le", "gt", "ge", "and",
     "or", "xor", "imp", "eqv",
 ];
+const SPEC_INT: &[&str] = &["add", "sub", "mul", "divint", "mod", "pow"];
 const OPS1_INT: &[&str] = &["neg", "abs", "not", "sgn", "cint", "fix", "int", "hex", "oct", "str", "csng", "cdbl", "toi16", "tou16"];
 
 fn iv(n: i16) -> String {
@@ -166,12 +179,18 @@ pub fn gen_int<W: Write>(w: &mut W, tier: &str, seed: u64) {
     for op in OPS1_INT {
         for n in i16::MIN..=i16::MAX {
             emit(w, "K", &format!("OP {} {}", op, iv(n)));
+            if *op == "neg" || *op == "abs" {
+                emit(w, "F", &format!("SPEC int {} {}", op, iv(n)));
+            }
         }
     }
     for op in OPS2_NUM {
         for &a in INT_B {
             for &b in INT_B {
                 emit(w, "K", &format!("OP {} {} {}", op, iv(a), iv(b)));
+                if SPEC_INT.contains(op) && !(*op == "pow" && b < 0) {
+                    emit(w, "F", &format!("SPEC int {} {} {}", op, iv(a), iv(b)));
+                }
             }
         }
     }
@@ -181,6 +200,9 @@ pub fn gen_int<W: Write>(w: &mut W, tier: &str, seed: u64) {
         let a = rng.next() as i16;
         let b = if rng.chance(1, 4) { *rng.pick(INT_B) } else if rng.chance(1, 3) { (rng.next() % 33) as i16 - 16 } else { rng.next() as i16 };
         emit(w, "K", &format!("OP {} {} {}", op, iv(a), iv(b)));
+        if SPEC_INT.contains(op) && !(*op == "pow" && b < 0) {
+            emit(w, "F", &format!("SPEC int {} {} {}", op, iv(a), iv(b)));
+        }
     }
 }
 
